@@ -44,7 +44,8 @@ Singles(ty) == {{r} : r \in Lowers(ty) \cup Uppers(ty)}
 DeclSpace ==
   UNION {
     UNION {{Decl(ty, <<>>, "std", val) : val \in Perms(S)} : S \in {T \in Pairs(ty) \cup Singles(ty) : NonEmpty(ty, T)}}
-    \cup UNION {{Decl(ty, san, "std", val) : val \in Perms(S), san \in Sans(ty)} : S \in {T \in Singles(ty) : NonEmpty(ty, T) /\ \A r \in T : r.sp = "lit"}}
+    \cup {dd \in UNION {{Decl(ty, san, "std", val) : val \in Perms(S), san \in Sans(ty)} : S \in {T \in Singles(ty) : NonEmpty(ty, T) /\ \A r \in T : r.sp = "lit"}} :
+            Obtainable(dd, Dom(ty)) # {}}        \* precondition of C09: some value is obtainable (after sanitisation)
     \cup {Decl(ty, san, "none", <<>>) : san \in Sans(ty)}
   : ty \in {"i8", "u8"}}
 
